@@ -161,6 +161,13 @@ type FuncSpec struct {
 	OnceBody   bool
 	StrictGhost bool
 	Panics     string
+	// implements checks (implements.go)
+	IfaceParams  bool      // clauses name the parameters recv, a0, a1, ...
+	SkipFrame    bool      // frame compared at contract level instead
+	ModFile      string    // file whose package resolves the modifies items (own contract)
+	ImplRequires []*Clause // the implementation's own preconditions, assumed and listed
+	ImplFile     string
+	ImplLets     []LetBind
 }
 
 // IsFunctional: the spec constrains behaviour (not just goroutine / once_body annotations).
